@@ -31,6 +31,7 @@ type scEvent struct {
 type scRow struct {
 	N   string `json:"n"`
 	Lit bool   `json:"lit"`
+	VK  string `json:"vk"` // "num" scalars | "obj" the object {x: 1} | "objexpr" that object and an expression element
 }
 type scMatrix struct {
 	K    string  `json:"k"`
@@ -296,13 +297,24 @@ func scRender(sh scShape, site scSite, ref scRef, keep map[int]bool, order []int
 			firstLit := ""
 			for _, r := range job.Mx.Rows {
 				if r.Lit {
-					if firstLit == "" && is("mxrow", j, 0) {
+					objs := r.VK == "obj" || r.VK == "objexpr"
+					probeHere := firstLit == "" && is("mxrow", j, 0)
+					switch {
+					case !objs && !probeHere:
+						w("        " + dn(r.N) + ": [1, 2]")
+					case !objs:
 						w("        " + dn(r.N) + ":")
 						w("          - 1")
 						w("          - 2")
+					default:
+						w("        " + dn(r.N) + ":")
+						w("          - {x: 1}")
+						if r.VK == "objexpr" {
+							w("          - ${{ fromJSON(vars.ELEMENT) }}")
+						}
+					}
+					if probeHere {
 						at("          - ")
-					} else {
-						w("        " + dn(r.N) + ": [1, 2]")
 					}
 					if firstLit == "" {
 						firstLit = dn(r.N)
@@ -320,6 +332,15 @@ func scRender(sh scShape, site scSite, ref scRef, keep map[int]bool, order []int
 				for _, e := range job.Mx.Inc.Cs {
 					if e == "$" {
 						w("          - ${{ fromJSON(vars.ELEMENT) }}")
+						continue
+					}
+					if e == "A" { // the object literal {y: 1} assigned to key a
+						if !probed && is("mxinc", j, 0) {
+							at("          - " + dn("a") + ": ")
+							probed = true
+						} else {
+							w("          - " + dn("a") + ": {y: 1}")
+						}
 						continue
 					}
 					for i, key := range strings.Split(e, "") {
